@@ -77,8 +77,10 @@ def lenenc_str(s):
 CAP_LONG_PASSWORD, CAP_PROTOCOL_41, CAP_SSL, CAP_SECURE, CAP_CONNECT_DB, CAP_PLUGIN_AUTH = 1, 512, 2048, 0x8000, 8, 1 << 19
 
 
-def handshake41(user=b"root", caps=0xa200, tail=(0,), maxps=1 << 24, collation=0x21):
-    return le4(caps) + le4(maxps) + [collation] + [0] * 23 + b(user) + [0] + list(tail)
+def handshake41(user=b"root", caps=0xa200, tail=(0,), maxps=1 << 24, collation=0x21, filler=None):
+    filler = list(filler) if filler is not None else [0] * 23
+    assert len(filler) == 23
+    return le4(caps) + le4(maxps) + [collation] + filler + b(user) + [0] + list(tail)
 
 
 def ssl_request(caps=0xa200 | CAP_SSL, maxps=1 << 24, collation=0x21):
